@@ -240,6 +240,10 @@ func c16(r *ev.Run) {
 	issuers2, accounts2 := str(2, nil), str(2, []string{":"})
 	issuers1 := str(1, nil)
 	issuers1 = append(issuers1, "My Company", "a%41/b?c#d", "100%", "/lead", "trail/", "a b+c", "Ünï cödé 日本", "x&issuer=evil", "..", ".", "a//b")
+	// account names that look like the parts of a URL themselves (authority, scheme, port, path, query, fragment,
+	// user-info), several colons, leading / trailing separators
+	accounts2 = append(accounts2, "//fileserver:alice", "//10.0.0.7:8443/bob", "https://example.com:alice", "a://b:c", "x:y:z", "::", ":a", "a:", "//", "//:", "///", "a//b:c", "user@host:22", "mailto:x@y",
+		"c:\\users\\bob", "a?b=c:d", "a#b:c", "[::1]:8080", "%3A:%3A", "a:%2F%2Fb", "..:..", "./a:b", "alice:", "alice: bob", " : ", "a:b@c:d")
 	var issuers, accounts []string
 	if r.Thorough() {
 		issuers, accounts = append(issuers2, issuers1...), accounts2
